@@ -60,8 +60,18 @@ def gen(seed):
         rates['up_loss'] = rng.choice([0.05, 0.2])
         rates['down_loss'] = rng.choice([0.05, 0.2])
     knobs['rates'] = rates
+    if big and knobs.get('pct'):
+        # priority schedules re-decide at (almost) every line: too slow for 600-entry tables
+        for k_ in ('pct', 'pct_horizon'):
+            knobs.pop(k_, None)
+        knobs['line_mean'] = 40
     knobs['unsolicited'] = rng.random() < 0.2
     knobs['cache'] = (not big) and rng.random() < 0.3      # second connection served by the table cache (SimFS)
+    if not big and rng.random() < 0.25:
+        # the object has a history: an earlier connection on it was lost while the tables were being downloaded - the
+        # error is reported from inside the k-th send_packet call (as the radio / USB drivers do), i.e. on the thread that
+        # is downloading, so this is a sequential history, not a race
+        knobs['prior_failure'] = {'after': rng.randint(1, 3 + n_log + n_param), 'mode': 'sender', 'block': 0}
     knobs['max_steps'] = 30_000_000
     knobs['max_no_progress'] = 30_000_000      # zero-latency handshakes with 600-entry tables
     return {'seed': seed, 'scenario': 'toc-' + mode, 'knobs': knobs, 'device': dev, 'ops': []}
@@ -120,6 +130,29 @@ def execute(ctx):
     def one_connection(round_):
         done.pop('connected', None)
         cf = Crazyflie(rw_cache='/rw') if cache else Crazyflie()
+        pf = ctx.knobs.get('prior_failure')
+        if pf and round_ == 0:
+            # the failed earlier connection of this object
+            end = {}
+            cbs_ = [(cf.disconnected, lambda uri: end.setdefault('t', sim.now)),
+                    (cf.connection_failed, lambda uri, msg: end.setdefault('t', sim.now))]
+            for c_, f_ in cbs_:
+                c_.add_callback(f_)
+            w.fail_plan.append(dict(pf))
+            cf.open_link('sim://cf')
+            common.wait_until(sim, lambda: 't' in end, 30.0, 0.005)
+            if 't' not in end:
+                # the connection completed before the k-th packet: close it normally
+                cf.close_link()
+            else:
+                ctx.probe('earlier connection of the object lost during the download')
+            for c_, f_ in cbs_:
+                try:
+                    c_.remove_callback(f_)
+                except ValueError:
+                    pass
+            common.wait_until(sim, lambda: cf.link is None, 10.0, 0.005)
+            P.sim_sleep(0.3)
         done['cf'] = cf
         cf.connected.add_callback(on_connected)
         if ctx.knobs.get('unsolicited') and dev.v2 and dev.param_toc:
